@@ -54,7 +54,11 @@ def gen_ops(rnd, order, kinds, desc):
     return ops
 
 
+ALIASING = []      # filled by run_real: [operation, arguments, set of the original before, after]
+
+
 def run_real(cls, ops):
+    del ALIASING[:]
     from apischema import deserialize, serialize
     from apischema.fields import fields_set, set_fields, unset_fields
     from apischema.dataclasses import replace
@@ -66,7 +70,11 @@ def run_real(cls, ops):
         elif k == "setattr": setattr(obj, op[1], 9)
         elif k == "set_fields": set_fields(obj, *op[1], overwrite=op[2])
         elif k == "unset_fields": unset_fields(obj, *op[1])
-        else: obj = replace(obj, **{c: 7 for c in op[1]})
+        else:
+            # `replace` gives a new object with a set of its own: the original keeps the set it had, whatever happens to the copy afterwards
+            prev = obj; before = sorted(fields_set(prev))
+            obj = replace(obj, **{c: 7 for c in op[1]})
+            if fields_set(prev) is fields_set(obj) or sorted(fields_set(prev)) != before: ALIASING.append(["replace", op[1], before, sorted(fields_set(prev))])
         states.append(sorted(fields_set(obj)))
     return states, sorted(serialize(cls, obj)), sorted(serialize(cls, obj, exclude_unset=False))
 
@@ -149,6 +157,7 @@ def run(prop, seed, budget, ctx):
             if bad: why.append(f"fields_set-after-{c['ops'][bad[0]][0]}-differs-from-the-documented-set"); c["spec"] = spec; c["first_bad_op"] = bad[0]
             if ser != sorted(x for x in states[-1] if x in c["fields"]): why.append("exclude_unset-does-not-emit-exactly-the-set-fields")
             if ser_all != sorted(c["fields"]): why.append("exclude_unset=False-does-not-emit-every-field")
+            if ALIASING: why.append("replace-shares-or-changes-the-set-of-the-original"); c["aliasing"] = list(ALIASING)
         if why: c["kind"] = "P"; c["why"] = why; failures.append(c); hist["P:" + why[0][:40]] += 1
         elif not k_ok: c["kind"] = "K"; c["why"] = "model and implementation disagree"; failures.append(c); kbad += 1
     return {"evaluations": len(meta), "distinct_nontrivial": len(distinct),
